@@ -23,6 +23,14 @@ func (st *State) decide(c *Term) bool {
 		return c.K != 0
 	}
 	if st.spec {
+		// no forking while if-converting: the condition must be decided by the path condition
+		w := st.run.workerOf(st)
+		if r, _ := w.solver.Check(st.pc, c, false); r == Unsat {
+			return false
+		}
+		if r, _ := w.solver.Check(st.pc, Not(c), false); r == Unsat {
+			return true
+		}
 		panic(specAbort{})
 	}
 	w := st.run.workerOf(st)
@@ -354,7 +362,7 @@ func (st *State) step() {
 	case *ssa.Field:
 		st.set(f, x, st.get(f, x.X).(Struct)[x.Field])
 	case *ssa.FieldAddr:
-		p := st.get(f, x.X).(Ptr)
+		p := st.concPtr(st.get(f, x.X))
 		if p.Blk == 0 {
 			st.throwNilDeref()
 		}
@@ -436,8 +444,17 @@ func (st *State) step() {
 			st.set(f, x, s.P)
 		}
 	case *ssa.Store:
-		p := st.get(f, x.Addr).(Ptr)
-		st.Store(p, x.Val.Type(), st.get(f, x.Val))
+		av := st.get(f, x.Addr)
+		if sp, ok := av.(SymPtr); ok {
+			nv := st.get(f, x.Val).(*Term)
+			for i := int64(0); i < sp.N; i++ {
+				q := Ptr{sp.Blk, sp.Base + i*sp.Stride}
+				old := st.Load(q, x.Val.Type()).(*Term)
+				st.Store(q, x.Val.Type(), Ite(Eq(sp.Idx, C(64, uint64(i))), nv, old))
+			}
+		} else {
+			st.Store(av.(Ptr), x.Val.Type(), st.get(f, x.Val))
+		}
 	case *ssa.TypeAssert:
 		st.set(f, x, st.typeAssert(f, x))
 	case *ssa.If:
@@ -656,6 +673,18 @@ func (st *State) unop(f *Frame, x *ssa.UnOp) Value {
 	v := st.get(f, x.X)
 	switch x.Op {
 	case token.MUL:
+		if sp, ok := v.(SymPtr); ok {
+			var r *Term
+			for i := sp.N - 1; i >= 0; i-- {
+				e := st.Load(Ptr{sp.Blk, sp.Base + i*sp.Stride}, x.Type()).(*Term)
+				if r == nil {
+					r = e
+				} else {
+					r = Ite(Eq(sp.Idx, C(64, uint64(i))), e, r)
+				}
+			}
+			return r
+		}
 		p := v.(Ptr)
 		return st.Load(p, x.Type())
 	case token.NOT:
@@ -769,26 +798,64 @@ func (st *State) idxTerm(f *Frame, v ssa.Value) *Term {
 	return t
 }
 
+func scalarElem(t types.Type) bool {
+	b, ok := t.Underlying().(*types.Basic)
+	return ok && b.Info()&(types.IsInteger|types.IsBoolean) != 0
+}
+
+// symIndex returns a SymPtr for a symbolic index into a small scalar array.
+func (st *State) symIndex(base Ptr, idx *Term, n int64, et types.Type) (Value, bool) {
+	if idx.Op == OConst || n > 16 || n < 1 || !scalarElem(et) || st.run.Opts.NoSymPtr {
+		return nil, false
+	}
+	oob := Or(Cmp(OSlt, idx, C(64, 0)), Cmp(OSle, C(64, uint64(n)), idx))
+	if st.decide(oob) {
+		iv := st.evalModel(idx)
+		st.throwRuntime(fmt.Sprintf("index out of range [%d] with length %d", int64(iv), n))
+	}
+	return SymPtr{Blk: base.Blk, Base: base.Off, Stride: sizeof(et), Idx: idx, N: n}, true
+}
+
 func (st *State) indexAddr(f *Frame, x *ssa.IndexAddr) Value {
 	base := st.get(f, x.X)
 	idx := st.idxTerm(f, x.Index)
 	switch t := x.X.Type().Underlying().(type) {
 	case *types.Pointer:
 		arr := t.Elem().Underlying().(*types.Array)
-		p := base.(Ptr)
+		p := st.concPtr(base)
 		if p.Blk == 0 {
 			st.throwNilDeref()
+		}
+		if sp, ok := st.symIndex(p, idx, arr.Len(), arr.Elem()); ok {
+			return sp
 		}
 		i := st.boundsCheck(idx, arr.Len(), "array")
 		return Ptr{p.Blk, p.Off + i*sizeof(arr.Elem())}
 	case *types.Slice:
 		s := base.(Slice)
+		if sp, ok := st.symIndex(s.P, idx, s.Len, t.Elem()); ok {
+			return sp
+		}
 		i := st.boundsCheck(idx, s.Len, "slice")
 		return Ptr{s.P.Blk, s.P.Off + i*sizeof(t.Elem())}
 	}
 	st.fail("indexAddr: unsupported base")
 	abort()
 	return nil
+}
+
+// concPtr turns a possibly symbolic pointer into a concrete one (forking).
+func (st *State) concPtr(v Value) Ptr {
+	switch p := v.(type) {
+	case Ptr:
+		return p
+	case SymPtr:
+		i := int64(st.concretize(p.Idx))
+		return Ptr{p.Blk, p.Base + i*p.Stride}
+	}
+	st.fail(fmt.Sprintf("expected pointer, got %T", v))
+	abort()
+	return Ptr{}
 }
 
 func (st *State) index(f *Frame, x *ssa.Index) Value {
@@ -1090,7 +1157,11 @@ func (st *State) call(f *Frame, x *ssa.Call) {
 		args = append([]Value{recv.V}, args...)
 	} else {
 		for _, a := range c.Args {
-			args = append(args, st.get(f, a))
+			av := st.get(f, a)
+			if _, ok := av.(SymPtr); ok {
+				av = st.concPtr(av)
+			}
+			args = append(args, av)
 		}
 		switch v := c.Value.(type) {
 		case *ssa.Builtin:
@@ -1130,7 +1201,31 @@ func (st *State) call(f *Frame, x *ssa.Call) {
 		st.fail("call of external function without intrinsic: " + name)
 		abort()
 	}
+	if len(bind) == 0 && !st.run.Opts.NoMerge && st.run.P.pureFn(fn) {
+		if res, ok := st.tryPureCall(fn, args); ok {
+			st.deliver(f, res)
+			return
+		}
+	}
 	st.pushFrame(fn, args, bind)
+}
+
+// tryPureCall evaluates a side-effect-free callee on all of its paths at once.
+func (st *State) tryPureCall(fn *ssa.Function, args []Value) (res Value, ok bool) {
+	st.spec = true
+	defer func() {
+		st.spec = false
+		if e := recover(); e != nil {
+			if _, isSpec := e.(specAbort); isSpec {
+				ok = false
+				return
+			}
+			panic(e)
+		}
+	}()
+	res = st.evalPureFn(fn, args, 0)
+	st.run.merges.Add(1)
+	return res, true
 }
 
 func (st *State) builtin(f *Frame, name string, c *ssa.CallCommon, args []Value) Value {
